@@ -287,13 +287,50 @@ def iterator_reuse(P, R, rule, fns):
 
 # --------------------------------------------------------------------------------------------- stateful guards
 import re as _re
-_STATE_TY = _re.compile(r"RefCell<|(?<![A-Za-z])Cell<|Mutex<|RwLock<|Atomic[A-Z]|OnceCell<|OnceLock<|RefMut<|&mut ")
+_STATE_TY = _re.compile(r"RefCell<|(?<![A-Za-z])Cell<|Mutex<|RwLock<|Atomic[A-Z]|OnceCell<|OnceLock<|RefMut<|cell::Ref<|MutexGuard<|LocalKey<|&mut ")
 _ITER_TY = _re.compile(r"::iter::|IntoIter|Iter<|Chars<|Peekable<|Pairs<")
 
 
-def stateful_guards(fn):
-    """guards (if conditions, let-else initialisers, match scrutinees outside loop desugaring) that read interior-mutable or
-    `&mut`-borrowed state: [(node index of the guarded construct, guard expr, state type, [guarded blocks])]"""
+_SELECTING = ("filter", "filter_map", "take_while", "skip_while", "map_while", "find", "find_map", "retain", "position", "any", "all", "then", "then_some")
+_STATEFUL_ADT = {}
+
+
+def stateful_adt(P, t, depth=0, seen=None):
+    """does type string t mention a workspace ADT that (transitively) owns interior-mutable state?"""
+    if P is None:
+        return False
+    seen = seen if seen is not None else set()
+    for ap, adt in P.adts.items():
+        if ap in t and ap not in seen:
+            seen.add(ap)
+            key = (id(P), ap)
+            if key not in _STATEFUL_ADT:
+                _STATEFUL_ADT[key] = False
+                for ft in [norm(f["ty"]) for v in adt.variants for f in v["fields"]]:
+                    ft = str(ft)
+                    if _GLOBAL_STATE_TY.search(ft) or (depth < 3 and stateful_adt(P, ft, depth + 1, seen)):
+                        _STATEFUL_ADT[key] = True
+                        break
+            if _STATEFUL_ADT[key]:
+                return True
+    return False
+
+
+_IS_STATE = {}
+
+
+def _is_state(P, t):
+    t = str(t)
+    k = (id(P), t)
+    if k not in _IS_STATE:
+        _IS_STATE[k] = bool(_STATE_TY.search(t) and not _ITER_TY.search(t)) or ("::" in t and stateful_adt(P, t))
+    return _IS_STATE[k]
+
+
+def stateful_guards(fn, P=None, adaptors=False):
+    """guards (if conditions, let-else initialisers, match scrutinees outside loop desugaring, predicate closures of selecting
+    adaptors) that read interior-mutable or `&mut`-borrowed state (with P: also workspace types wrapping such state):
+    [(node index of the guarded construct, guard expr, state type, [guarded blocks])]"""
     out = []
     for i, (x, _) in enumerate(fn.nodes()):
         k = x.get("k")
@@ -303,16 +340,21 @@ def stateful_guards(fn):
             g, blocks = x.get("init"), [x["els"]]
         elif k == "Match" and not x.get("x"):
             g, blocks = x["scrut"], [a["body"] for a in x["arms"]]
+        elif adaptors and k == "MethodCall" and x.get("method") in _SELECTING and any(a.get("k") == "Closure" for a in x["args"]):
+            g, blocks = [a for a in x["args"] if a.get("k") == "Closure"][0]["body"], []
         else:
             continue
         if g is None:
             continue
         for y in subnodes(g):
             t = str(y.get("t", ""))
-            if _STATE_TY.search(t) and not _ITER_TY.search(t):
+            if _is_state(P, t):
                 out.append((i, g, t, [b for b in blocks if b is not None]))
                 break
     return out
+
+
+PROGRAM_FOR_MEMO = None
 
 
 def memo_key_gaps(fn, guard, pv):
@@ -320,7 +362,8 @@ def memo_key_gaps(fn, guard, pv):
     (other than the state holder and `&mut` sinks) that the key expression does not derive from"""
     key_params, holder = set(), set()
     for y in subnodes(guard):
-        if y.get("k") == "MethodCall" and y.get("method") in ("insert", "contains", "contains_key", "get", "replace", "entry", "remove"):
+        if y.get("k") == "MethodCall" and (y.get("method") in ("insert", "contains", "contains_key", "get", "replace", "entry", "remove")
+                                           or stateful_adt(PROGRAM_FOR_MEMO, str(y.get("recv_ty", "")))):
             for a in y["args"]:
                 key_params |= {p[1] for p in pv.atoms(a) if p[0] == "param"}
             holder |= {p[1] for p in pv.atoms(y["recv"]) if p[0] == "param"}
@@ -535,3 +578,81 @@ def scope_fns(P, fn, depth=3):
                     nxt.append(g)
         frontier = nxt
     return out
+
+
+# ------------------------------------------------------------------------------------------- memoisation inventory
+_MEMO_METHODS = ("contains", "contains_key", "get", "insert", "entry", "remove", "get_mut", "get_or_insert_with", "get_or_init", "take", "replace")
+_MEMO_TABLE = None
+
+
+def _memo_table():
+    global _MEMO_TABLE
+    if _MEMO_TABLE is None:
+        import json
+        import os
+        try:
+            _MEMO_TABLE = json.load(open(os.path.join(os.path.dirname(os.path.dirname(os.path.abspath(__file__))), "tables", "memo_guards.json")))
+        except Exception:
+            _MEMO_TABLE = []
+    return _MEMO_TABLE
+
+
+def memo_guard_sites(P, prefixes):
+    """[(fn, signature, gaps, key params, holder params, state type)] for every guard in functions under `prefixes` that consults
+    run-time state (a `&mut`-borrowed or interior-mutable collection, a thread-local) through a membership/look-up method.
+    signature = (crate, element type of the state, sorted field atoms of the key) — independent of function and local names."""
+    from prov import Prov
+    out = []
+    for p, f in sorted(P.fns.items()):
+        if f.derived or "::tests" in p or not any(p.startswith(x) or p.startswith("<" + x) for x in prefixes):
+            continue
+        gs = stateful_guards(f, P, adaptors=True)
+        if not gs:
+            continue
+        pv = Prov(f)
+        for i, g, t, blocks in gs:
+            calls = [y for y in subnodes(g) if y.get("k") == "MethodCall" and (y.get("method") in _MEMO_METHODS or stateful_adt(P, str(y.get("recv_ty", ""))))
+                     and _is_state(P, str(y.get("recv_ty", "")) + " " + str(y["recv"].get("t", "")))]
+            if not calls:
+                continue
+            gaps, key, holder = memo_key_gaps(f, g, pv)
+            kf = set()
+            for y in calls:
+                for a in y["args"]:
+                    kf |= {"%s.%s" % (x[1].split("::")[-1], x[2]) for x in pv.atoms(a) if x[0] == "field"}
+            st = norm(str(calls[0].get("recv_ty") or calls[0]["recv"].get("t") or t))
+            st = st.replace("&mut ", "").replace("&", "")
+            kind = "cache" if any(y["method"] in ("get", "get_mut", "entry", "get_or_insert_with", "get_or_init", "take", "replace") for y in calls) else "seen"
+            out.append((f, (f.crate, kind, tuple(sorted(kf)), st), gaps, key, holder, t))
+    return out
+
+
+def memo_rule(P, R, rule, prefixes, what):
+    """Memoisation / seen-set discipline.  Every guard that skips or reuses work because run-time state says "already done" is a
+    place where the answer for one input can be served for another.  The guards of the pinned tree are frozen by signature in
+    tables/memo_guards.json (each was read: its key determines the skipped work); a guard with a new signature is a new memo, and
+    its key must cover every non-`&mut` parameter of the function (otherwise two calls that differ only in an uncovered parameter
+    share an entry).  A covered new memo HOLDS; an uncovered one is VIOLATED; nothing is reported for state that is only
+    accumulated."""
+    global PROGRAM_FOR_MEMO
+    PROGRAM_FOR_MEMO = P
+    table = _memo_table()
+    sites = memo_guard_sites(P, prefixes)
+    n = 0
+    for f, sig, gaps, key, holder, t in sites:
+        n += 1
+        crate, kind, kf, st = sig
+        k = "memo:%s:%s:%s" % (kind, st.split("<")[0].split("::")[-1], ",".join(x for x in kf if not x.startswith("Some.")) or "-")
+        reviewed = [r for r in table if r["crate"] == crate and r["kind"] == kind and
+                    ((r["key_any"] and any(x in kf for x in r["key_any"])) or (r.get("state_any") and any(x in st for x in r["state_any"]))
+                     or (not r["key_any"] and not r.get("state_any") and not gaps))]
+        if reviewed:
+            R.holds(rule, k, "reviewed %s of the pinned tree (%s)" % ("seen-set" if kind == "seen" else "cache", short(f.path)), loc=f.loc())
+        elif not gaps:
+            R.holds(rule, k + "@new", "new %s in %s: its key covers every input of the function" % (kind, short(f.path)), loc=f.loc())
+        else:
+            R.violated(rule, k + "@new", "%s now skips or reuses work when run-time state (%s) already has an entry for a key computed from %s only; "
+                       "the skipped work also depends on %s, and the state outlives the call — a later call that differs only there is served "
+                       "the earlier answer (%s)" % (f.path, st, key or "nothing", gaps, what), loc=f.loc())
+    R.count("memo_guards", n)
+    return n
